@@ -96,7 +96,7 @@ PROPS["C13"] = {
 }
 PROPS["C14"] = {
     "modules": ["CC.Props.C14"], "campaigns": [hist("C14", BOTH), {"name": "ds", "configs": ONE}], "quick_configs": ONE, "tables": {"allocs": "supporting"},
-    "level_text": "Lean theorems over the wire model for every byte string: reading a count consumes input; a length-prefixed vector is read only when it fits in the remaining input; a loop `for 0..n` whose reader consumes input performs at most |input|+1 reads whatever n (up to 2^64-1) and fails when n exceeds the input; pre-allocations are bounded by the remaining input (and every with_capacity / read_vec site of the source is re-extracted on every run and checked to be the bounded form); decoded encapsulations have at least one trap; the revision iterator terminates (zero chains included). Oracle on the real code in worker processes (RLIMIT_AS, watchdog, counting allocator): truncations, byte corruptions, boundary counts, random strings; accepted mutants are used; accepted => accepted by the model; the revision iterator of the real RevisionVec is driven directly (hook `verif_hooks`) on chains of unequal lengths, empty chains and no chain at all against `revisions` (campaign `ds`)",
+    "level_text": "Lean theorems over the wire model for every byte string: reading a count consumes input; a length-prefixed vector is read only when it fits in the remaining input; a loop `for 0..n` whose reader consumes input performs at most |input|+1 reads whatever n (up to 2^64-1) and fails when n exceeds the input; pre-allocations are bounded by the remaining input (and every with_capacity / read_vec site of the source is re-extracted on every run and checked to be the bounded form); decoded encapsulations, headers, user keys, public keys and master keys meet the preconditions of the `len() - 1` accessors and of `decaps` / `full_decaps` (at least one trap / marker / tracing point / tracer; no empty chain in a user key); the revision iterator terminates (zero chains included). Oracle on the real code in worker processes (RLIMIT_AS, watchdog, counting allocator): truncations, byte corruptions, boundary counts, random strings; accepted mutants are used; accepted => accepted by the model; the revision iterator of the real RevisionVec is driven directly (hook `verif_hooks`) on chains of unequal lengths, empty chains and no chain at all against `revisions` (campaign `ds`)",
     "level_note": "time / memory of the leaves' own decoders (curve points, ML-KEM keys) and of the allocator are outside the model; the worker-process oracle measures them with fixed linear bounds",
 }
 
